@@ -324,3 +324,22 @@ package atree
 //@        ghost.sto, ghost.stored, ghost.touched, alloc
 //@   loop 1: invariant 0 <= i && i <= j && j <= len(m.childrenHeaders) && -1 <= ans && ans < len(m.childrenHeaders) && ans == i - 1 &&
 //@        (forall q :: 0 <= q && q < i ==> m.childrenHeaders[q].firstKey <= hkey) && (forall q :: j <= q && q < len(m.childrenHeaders) ==> m.childrenHeaders[q].firstKey > hkey)
+
+//@ func (m *MapMetaDataSlab) Set(storage, b, digester, level, hkey, comparator, hip, key, value) (ks, existing, err)  serves C02 C03 C05 C06 C09
+//@   requires storage != nil && wfMM(m) && mLinked(m) && len(m.childrenHeaders) >= 2 && m.header.size + 18 <= 4294967295
+//@   assume (forall q :: 0 <= q && q < len(m.childrenHeaders) ==> mhdrBand(m.childrenHeaders[q])) because "tree invariant (composition): every child of m is in band before the operation"
+//@   assume mChildrenReady(m) because "tree invariant (composition): children of m are well-formed, in band, linked, with disjoint subtrees and ascending key ranges"
+//@   assume !inSub(m, valueRoot(key)) && !inSub(m, valueRoot(value)) because "frame assumption F: key and value are not containers inside the subtree of m"
+//@   ensures[C06] err == nil ==> wfMM0(m) && m.header.slabID == old(m.header.slabID)
+//@   ensures[C09] err == nil ==> sto[m.header.slabID] == m && mDistinct(m)
+//@   ensures[C09] err == nil ==> mAgree(m)
+//@   ensures[C05] err == nil ==> (forall i :: 0 <= i && i < len(m.childrenHeaders) ==> mhdrBand(m.childrenHeaders[i]))
+//@   ensures[C02 C03] err == nil ==> has(stored, m)
+//@   modifies MapMetaDataSlab.childrenHeaders@inSub(m), MapMetaDataSlab.header@inSub(m), MapDataSlab.*@inSub(m),
+//@        hkeyElements.*@inSub(m), singleElements.*@inSub(m), singleElement.*@inSub(m), inlineCollisionGroup.*@inSub(m), externalCollisionGroup.*@inSub(m),
+//@        ghost.sto, ghost.stored, ghost.touched, alloc,
+//@        as(valueRoot(key), *ArrayDataSlab).header, as(valueRoot(key), *ArrayDataSlab).inlined, as(valueRoot(key), *MapDataSlab).header, as(valueRoot(key), *MapDataSlab).inlined,
+//@        as(valueRoot(value), *ArrayDataSlab).header, as(valueRoot(value), *ArrayDataSlab).inlined, as(valueRoot(value), *MapDataSlab).header, as(valueRoot(value), *MapDataSlab).inlined
+//@   loop 1: invariant 0 <= i && i <= j && j <= len(m.childrenHeaders) && 0 <= ans && ans < len(m.childrenHeaders) && (i > 0 ==> ans == i - 1) && (i == 0 ==> ans == 0) &&
+//@        (forall q :: 0 <= q && q < i ==> m.childrenHeaders[q].firstKey <= hkey) && (forall q :: j <= q && q < len(m.childrenHeaders) ==> m.childrenHeaders[q].firstKey > hkey)
+
